@@ -16,6 +16,7 @@ S4: monitors written from the property statement, evaluated on the implementatio
 import binascii
 import hashlib
 import itertools
+import json
 import os
 import re
 import shutil
@@ -29,7 +30,7 @@ from twisted.internet.testing import StringTransport
 from zope.interface import directlyProvides, implementer, providedBy
 
 STREAMS = ['lines-exhaustive', 'lines-random', 'lines-malformed', 'cookie-env', 'handshake-spec-server',
-           'handshake-sequence', 'own-bus-handshake']
+           'handshake-sequence', 'own-bus-handshake', 'handshake-interleaved', 'kind-flip-sequence', 'history-repeat']
 THEOREMS = ['begin_only_after_ok', 'begin_only_after_ok_of_current_mechanism', 'authenticated_iff_begin',
             'mechanisms_once_in_order', 'moves_on_after_rejected_or_error', 'no_stall', 'no_stall_run',
             'no_complete_line_buffered', 'framing_independent_of_reads', 'line_delivered_in_pieces',
@@ -72,6 +73,7 @@ CRLF = b'\r\n'
 SERVER_WORDS = (b'REJECTED', b'OK', b'DATA', b'ERROR', b'AGREE_UNIX_FD')
 HEXDIGITS = b'0123456789abcdefABCDEF'
 RND = bytes([1, 2, 3, 4, 5, 6, 7, 8])
+FIRST_K = 400        # the first cases of a run are run again at its end (repeat oracle)
 
 
 def hx(b):
@@ -189,6 +191,8 @@ class World:
         self.handler_words = sorted(n[6:].encode() for n in dir(authentication.ClientAuthenticator)
                                     if n.startswith('_auth_'))
         self.env = None
+        self.current = None          # the Session whose code is running (its environment is `env`)
+        self.scenario_inputs = {}    # violation key -> a several-connection scenario in which it was seen
         self.escapes = []
 
         def guarded_open(path, *a, **kw):
@@ -202,7 +206,9 @@ class World:
             except (TypeError, ValueError):
                 real = None
             if real is None or not any(real == k or real.startswith(k + os.sep) for k in roots):
-                world.escapes.append(os.fsdecode(path) if isinstance(path, (bytes, str)) else repr(path))
+                cur = getattr(world, 'current', None)
+                (cur.escapes if cur is not None else world.escapes).append(
+                    os.fsdecode(path) if isinstance(path, (bytes, str)) else repr(path))
                 raise PermissionError(13, 'refused by the harness', path)
             return open(path, *a, **kw)
 
@@ -311,11 +317,20 @@ def error_kind(text):
 class Session:
     """One client connection of the real code on a fake transport."""
 
-    def __init__(self, world, unix, env, pref=None, ukind='class'):
+    def __init__(self, world, unix, env, pref=None, ukind='class', tclass=None):
         self.world = world
-        world.set_env(env)
+        self.env = env                 # the environment of THIS connection (activated around every entry into its code)
+        self.escapes = []              # paths outside the keyring this connection tried to open
+        self.activate()
         self.log = []
-        if unix and ukind == 'instance':
+        if tclass is not None:
+            # `fresh`: a transport class of the scenario's own; whether an instance provides IUNIXTransport is decided
+            # per instance (two connections of one scenario use the same class with different answers)
+            self.t = tclass(self.log)
+            if unix:
+                self.t.sendFileDescriptor = lambda fd, log=self.log: log.append(('fd', fd))
+                directlyProvides(self.t, interfaces.IUNIXTransport, providedBy(self.t))
+        elif unix and ukind == 'instance':
             # a UNIX transport that provides the interface on the INSTANCE (zope directlyProvides - what
             # twisted.protocols.policies.ProtocolWrapper does for a wrapped UNIX transport), not on its class
             self.t = FakeTransport(self.log)
@@ -328,10 +343,24 @@ class Session:
         self.p._vraw = []
         self.p._vauth = None
         self.crash = None
+        self.connect_crash = None
         self.delivered = b''
         self.undispatched = None     # (read index, complete lines delivered, lines handed over) at the first lag
         self.reads = 0
-        self.p.makeConnection(self.t)
+        try:
+            self.p.makeConnection(self.t)
+        except Exception as e:
+            # an exception out of connectionMade: Twisted drops the connection.  Recorded as "closes" (the monitors then
+            # judge a connection that offered no mechanism); never a harness traceback that hides the case
+            self.connect_crash = self.crash = type(e).__name__
+            self.log.append(('C',))
+            self.t.disconnecting = True
+
+    def activate(self):
+        """Make this connection's environment the one `txdbus.authentication` sees (HOME, getpass, os.urandom, open)."""
+        self.world.current = self
+        if self.world.env is not self.env:
+            self.world.set_env(self.env)
 
     def feed(self, data):
         was_line_mode = not self.p._authenticated
@@ -348,6 +377,7 @@ class Session:
                 self.undispatched = (self.reads, complete, handed)
 
     def _feed(self, data):
+        self.activate()
         try:
             self.p.dataReceived(data)
         except Exception as e:
@@ -550,6 +580,20 @@ def monitor(world, unix, evs, early_binary, pref=None):
             a_seen = True
             if begins == 0:
                 out.append(('authenticated-without-begin', 'connectionAuthenticated() runs although BEGIN was not sent'))
+    # what the client does by itself at connect time: its first line offers the first mechanism of its list (nothing
+    # the server said can have excluded it yet); a connection that offers nothing cannot complete any handshake
+    if pref:
+        first_s = next((line for k, line in ev if k == 'S'), None)
+        if first_s is None:
+            out.append(('no-auth-offered-at-connect',
+                        'the client wrote no AUTH line at all on this connection (preference list %r): it offers no '
+                        'mechanism and the handshake cannot start' % (pref,)))
+        else:
+            cmd, args = split_cmd(first_s)
+            if cmd != b'AUTH' or args.split(b' ')[0] != pref[0]:
+                out.append(('first-auth-not-preferred-mechanism',
+                            'the first line of the connection is %r; the preference list %r starts with %r'
+                            % (first_s[:60], pref, pref[0])))
     if not is_subsequence_without_repetition(auth_sent, pref):
         out.append(('mechanisms-not-in-preference-order',
                     'mechanisms offered %r are not an order-preserving, repetition-free selection from the '
@@ -569,6 +613,9 @@ def judge(ctx, world, stream, case, envs, model_out):
     impl = s.canonical()
     evs, early = s.events()
     ctx.impl_trace()
+    fc = getattr(world, 'first_canon', None)
+    if fc is not None and len(fc) < FIRST_K:
+        fc.setdefault(json.dumps(case, sort_keys=True), (case, impl))
     if s.crash:
         ctx.stat('exception-out-of-dataReceived:' + s.crash)
     nlines = sum(1 for e in evs if e.startswith('R:'))
@@ -578,11 +625,11 @@ def judge(ctx, world, stream, case, envs, model_out):
     for key, what in monitor(world, case['unix'], evs, early, case_pref(case)):
         ctx.violation(key, what, inp=dict(case, kind='run'), observed=impl,
                       expected='see the property statement of C07')
-    if world.escapes:
+    if s.escapes:
         ctx.violation('cookie-context-escapes-keyring',
                       'a cookie context name sent by the server makes the client open %r, outside its keyring '
                       'directory (a FIFO or a device there blocks dataReceived forever: the handshake stalls)'
-                      % (world.escapes[0],),
+                      % (s.escapes[0],),
                       inp=dict(case, kind='run'), observed=impl,
                       expected='ERROR for a context name that is not a plain file name; no file opened')
     judge_splitting(ctx, world, case, envs, s, impl)
@@ -1690,6 +1737,7 @@ def own_run(world, tmp, spec, rng=None, schedule=None, ctxname=None):
         except (AttributeError, TypeError):
             saved_funcs = None
         world.set_env(env)
+        world.current = None
         busd = OwnBus(world, spec['creds'])
         s = Session(world, spec['unix'], env, ukind=spec.get('ukind', 'class'))
         c2s, s2c = bytearray(), bytearray()
@@ -1925,6 +1973,288 @@ def own_replay(ctx, world, tmp, inp):
 
 
 # --------------------------------------------------------------------------------------------
+# several connections alive in one scenario (state-leak round: streams 'handshake-interleaved', 'kind-flip-sequence',
+# 'history-repeat').  Every connection has its OWN environment (Session.activate), its own transport kind and its own
+# conversation; the reads of the connections are interleaved.  Each connection is judged exactly like a single one
+# (model of ITS reads, monitors on ITS trace): what another connection of the same process did must not matter.
+# The input of a finding is the whole scenario, so a replay reproduces it from its own input.
+def run_multi(world, envs, scen):
+    tclass = type('FlipTransport', (FakeTransport,), {})      # the scenario's own transport class ('fresh' kind)
+    sess = [None] * len(scen['sessions'])
+    for act in scen['actions']:
+        i = act[1]
+        d = scen['sessions'][i]
+        if act[0] == 'open':
+            pref = [unhx(m) for m in d['pref']] if d.get('pref') is not None else None
+            sess[i] = Session(world, d['unix'], envs[d['env']], pref,
+                              ukind='instance' if d['tkind'] == 'instance' else 'class',
+                              tclass=tclass if d['tkind'] == 'fresh' else None)
+        elif sess[i] is not None:
+            sess[i].feed(unhx(act[2]))
+    return sess
+
+
+def multi_session_case(scen, i):
+    d = scen['sessions'][i]
+    c = {'unix': bool(d['unix']), 'env': d['env'], 'chunks': [a[2] for a in scen['actions'] if a[0] == 'feed' and a[1] == i]}
+    if d.get('pref') is not None:
+        c['pref'] = d['pref']
+    return c
+
+
+def judge_multi(ctx, world, stream, scens, envs):
+    lines, idx = [], []
+    for k, scen in enumerate(scens):
+        for i in range(len(scen['sessions'])):
+            if any(a[0] == 'open' and a[1] == i for a in scen['actions']):
+                lines.append(driver_line(multi_session_case(scen, i), envs))
+                idx.append((k, i))
+    out = ctx.model(lines)
+    mod = dict(zip(idx, out)) if out is not None else {}
+    for k, scen in enumerate(scens):
+        sess = run_multi(world, envs, scen)
+        inp = dict(scen, kind='multi')
+        ctx.case(stream, sample=inp if len(scen['actions']) <= 12 else {'kind': 'multi', 'sessions': scen['sessions'],
+                                                                        'actions': len(scen['actions'])})
+        ctx.stat('%s:connections=%d' % (stream, len(scen['sessions'])))
+        for i, s in enumerate(sess):
+            if s is None:
+                continue
+            ctx.impl_trace()
+            impl = s.canonical()
+            evs, early = s.events()
+            d = scen['sessions'][i]
+            who = 'connection %d of %d (%s, %s)' % (i + 1, len(sess), 'UNIX' if d['unix'] else 'non-UNIX', d['tkind'])
+            m = mod.get((k, i))
+            if m is not None and m != impl:
+                ctx.disagree(stream, dict(inp, connection=i), m, impl)
+            if s.connect_crash:
+                ctx.stat('exception-out-of-connectionMade:' + s.connect_crash)
+            pref = [unhx(x) for x in d['pref']] if d.get('pref') is not None else None
+            for key, what in monitor(world, d['unix'], evs, early, pref):
+                world.scenario_inputs.setdefault(key, inp)
+                ctx.violation(key, what + ' [%s; other connections of the same process are alive in this scenario]' % who,
+                              inp=inp, observed=impl, expected='see the property statement of C07')
+            if s.escapes:
+                ctx.violation('cookie-context-escapes-keyring', 'the client opens %r, outside its keyring directory [%s]'
+                              % (s.escapes[0], who), inp=inp, observed=impl, expected='no file outside the keyring opened')
+            if s.undispatched is not None:
+                ctx.violation('complete-line-not-dispatched', 'a complete server line sits in the buffer unanswered [%s]' % who,
+                              inp=inp, observed=impl, expected='every complete line is answered')
+            end = 'auth' if s.p._authenticated else ('closed' if s.t.disconnecting else 'open')
+            ctx.stat('%s:%s:end=%s' % (stream, d['tkind'] + ('-unix' if d['unix'] else '-plain'), end))
+
+
+GUID_LINE = b'OK 6abbe624c672777bd87ab46e00027706'
+
+
+def interleave(rng, per_session_feeds, opens_first=False):
+    """actions: every session is opened before its first read; reads keep their order per session."""
+    n = len(per_session_feeds)
+    pos = [-1] * n           # -1: not opened
+    acts = []
+    if opens_first:
+        for i in range(n):
+            acts.append(['open', i])
+            pos[i] = 0
+    while True:
+        todo = [i for i in range(n) if pos[i] < len(per_session_feeds[i])]
+        if not todo:
+            break
+        i = rng.choice(todo) if rng is not None else todo[0]
+        if pos[i] == -1:
+            acts.append(['open', i])
+            pos[i] = 0
+            if not per_session_feeds[i]:
+                pos[i] = 0
+            continue
+        acts.append(['feed', i, hx(per_session_feeds[i][pos[i]])])
+        pos[i] += 1
+    # sessions without reads still have to be opened
+    for i in range(n):
+        if pos[i] == -1:
+            acts.append(['open', i])
+    return acts
+
+
+def round_robin(per_session_feeds):
+    n = len(per_session_feeds)
+    acts = [['open', i] for i in range(n)]
+    k = 0
+    while any(k < len(f) for f in per_session_feeds):
+        for i in range(n):
+            if k < len(per_session_feeds[i]):
+                acts.append(['feed', i, hx(per_session_feeds[i][k])])
+        k += 1
+    return acts
+
+
+def sequential(per_session_feeds):
+    acts = []
+    for i, f in enumerate(per_session_feeds):
+        acts.append(['open', i])
+        acts += [['feed', i, hx(x)] for x in f]
+    return acts
+
+
+def gen_interleaved_fixed():
+    """The pairs of the audit: A is rejected once (now at DBUS_COOKIE_SHA1); B connects; A is rejected again and
+    accepted; B is accepted - for every pair of transport kinds, with the descriptor negotiation answered both ways."""
+    scens = []
+    kinds = [(False, 'class'), (True, 'class'), (True, 'instance'), (False, 'fresh'), (True, 'fresh')]
+    for ua, ka in kinds:
+        for ub, kb in kinds:
+            for fd in (b'ERROR', b'AGREE_UNIX_FD'):
+                a_lines = [b'REJECTED', b'REJECTED', GUID_LINE] + ([fd] if ua else [])
+                b_lines = [GUID_LINE] + ([fd] if ub else [])
+                acts = [['open', 0], ['feed', 0, hx(a_lines[0] + CRLF)], ['open', 1], ['feed', 0, hx(a_lines[1] + CRLF)],
+                        ['feed', 0, hx(a_lines[2] + CRLF)], ['feed', 1, hx(b_lines[0] + CRLF)]]
+                if ua:
+                    acts.append(['feed', 0, hx(fd + CRLF)])
+                if ub:
+                    acts.append(['feed', 1, hx(fd + CRLF)])
+                scens.append({'sessions': [{'unix': ua, 'tkind': ka, 'env': 'good'}, {'unix': ub, 'tkind': kb, 'env': 'good711'}],
+                              'actions': acts})
+    return scens
+
+
+def gen_interleaved_random(rng, env_names, alphabet):
+    n = rng.choice([2, 2, 3])
+    sessions, feeds = [], []
+    for _ in range(n):
+        unix = rng.random() < 0.5
+        sessions.append({'unix': unix, 'tkind': rng.choice(['class', 'instance', 'fresh'] if unix else ['class', 'fresh']),
+                         'env': rng.choice(env_names)})
+        k = rng.randrange(1, 7)
+        seq = [rng.choice(NONCLOSING) if rng.random() < 0.75 else rng.choice(alphabet) for _ in range(k)]
+        data = b''.join(l + CRLF for l in seq)
+        feeds.append(chunkings(rng, data, 1)[0] if rng.random() < 0.4 else [l + CRLF for l in seq])
+    return {'sessions': sessions, 'actions': interleave(rng, feeds, opens_first=rng.random() < 0.3)}
+
+
+def gen_kind_flips():
+    """Connections whose transports are instances of ONE class but differ per instance in providing IUNIXTransport, in
+    both directions, one after the other and alive at the same time."""
+    scens = []
+    orders = ['UP', 'PU', 'UPU', 'PUP', 'UUP', 'PPU', 'UPPU']
+    for order in orders:
+        for tk in ('fresh', 'shared'):
+            for fd in (b'ERROR', b'AGREE_UNIX_FD'):
+                for pre in ([], [b'REJECTED']):
+                    sessions, feeds = [], []
+                    for ch in order:
+                        unix = ch == 'U'
+                        # 'shared': FakeTransport itself - UNIX by directlyProvides on the instance, plain otherwise
+                        sessions.append({'unix': unix, 'tkind': 'fresh' if tk == 'fresh' else ('instance' if unix else 'class'),
+                                         'env': 'good'})
+                        feeds.append([l + CRLF for l in pre + [GUID_LINE, fd]])
+                    for layout in (sequential(feeds), round_robin(feeds)):
+                        scens.append({'sessions': sessions, 'actions': layout})
+    return scens
+
+
+def run_state_streams(ctx, world, envs, rng, alphabet):
+    env_names = sorted(envs)
+    judge_multi(ctx, world, 'handshake-interleaved', gen_interleaved_fixed(), envs)
+    n = ctx.scale(quick=400, thorough=6000)
+    judge_multi(ctx, world, 'handshake-interleaved',
+                [gen_interleaved_random(rng, env_names, alphabet) for _ in range(n)], envs)
+    judge_multi(ctx, world, 'kind-flip-sequence', gen_kind_flips(), envs)
+
+
+# a fixed history of single connections, run twice: the second pass must behave like the first (and like the model)
+def history_cases(rng, alphabet):
+    cases = []
+    seqs = [[b'OK 1234'], [b'REJECTED', b'REJECTED', b'REJECTED'], [b'REJECTED', b'DATA ' + cookie_payload(), GUID_LINE],
+            [b'BOGUS'], [GUID_LINE, b'ERROR'], [GUID_LINE, b'AGREE_UNIX_FD'], [b'ERROR', b'ERROR', GUID_LINE],
+            [b'REJECTED', b'DATA ' + cookie_payload(b'missing', b'7'), b'REJECTED', GUID_LINE], [b'DATA', GUID_LINE],
+            [b'OK zz'], [b'REJECTED', b'REJECTED', b'DATA', b'REJECTED']]
+    for seq in seqs:
+        for unix in (False, True):
+            for env in ('good', 'nodir'):
+                cases.append(mk_case(unix, env, [l + CRLF for l in seq]))
+    for pref in ([b'ANONYMOUS'], [b'DBUS_COOKIE_SHA1', b'X-TEST', b'EXTERNAL', b'ANONYMOUS']):
+        cases.append(mk_case(False, 'good', [b'REJECTED\r\n', GUID_LINE + CRLF], pref))
+    for _ in range(12):
+        cases.append(random_lines_case(rng, None, alphabet, 6, ['good', 'good711', 'nodir']))
+    return cases
+
+
+def judge_history(ctx, world, envs, cases, stream='history-repeat'):
+    out = ctx.model([driver_line(c, envs) for c in cases])
+    first = []
+    for c, m in zip(cases, out or [None] * len(cases)):
+        s, evs = judge(ctx, world, stream, c, envs, m)
+        first.append(s.canonical())
+    for k, c in enumerate(cases):
+        s = run_impl(world, c, envs)
+        again = s.canonical()
+        ctx.impl_trace()
+        ctx.case(stream, sample=None)
+        if again != first[k]:
+            ctx.violation('outcome-depends-on-process-history',
+                          'connection %d of a history of %d connections behaves differently when the same history is run a '
+                          'second time in the same process' % (k + 1, len(cases)),
+                          inp={'kind': 'history', 'cases': cases, 'index': k}, observed=again, expected=first[k])
+            break
+
+
+
+# --------------------------------------------------------------------------------------------
+# replays must reproduce from their own input (state-leak round, G7): a finding whose exemplar is a single connection is
+# replayed in a FRESH process at the end of the run; when it does not reproduce there (the failure depended on what the
+# process did before), the exemplar is replaced by a scenario that carries its history - a several-connection scenario
+# in which the same key was seen, or the whole run.
+def fresh_process_keys(repo, inp):
+    import subprocess
+    import sys as _sys
+    code = (
+        'import sys, json\n'
+        'sys.path.insert(0, %r)\n'
+        'from vlib import ctx as C\n'
+        'C.use_repo(%r)\n'
+        'from harness import c07\n'
+        'c = C.Ctx("C07", "quick", 0, %r)\n'
+        'c07.replay(c, {"input": json.loads(sys.stdin.read())})\n'
+        'print("KEYS=" + json.dumps(sorted(v["key"] for v in c.violations)))\n'
+    ) % (os.path.dirname(os.path.dirname(os.path.abspath(__file__))), repo, repo)
+    try:
+        p = subprocess.run([_sys.executable, '-c', code], input=json.dumps(inp).encode(), stdout=subprocess.PIPE,
+                           stderr=subprocess.PIPE, timeout=120)
+    except Exception:
+        return None
+    for ln in p.stdout.decode('utf-8', 'replace').splitlines():
+        if ln.startswith('KEYS='):
+            return set(json.loads(ln[5:]))
+    return None
+
+
+def confirm_replays(ctx, world):
+    scen = getattr(world, 'scenario_inputs', {})
+    budget = 14
+    for v in ctx.violations:
+        inp = v.get('input')
+        if not isinstance(inp, dict) or inp.get('kind', 'run') in ('multi', 'history', 'process-history'):
+            continue
+        if budget <= 0:
+            break
+        budget -= 1
+        keys = fresh_process_keys(ctx.repo, inp)
+        if keys is None or v['key'] in keys:
+            continue                      # reproduces by itself (or could not be tried: left as it is)
+        ctx.stat('replay-needs-history')
+        cand = scen.get(v['key'])
+        if cand is not None:
+            budget -= 1
+            k2 = fresh_process_keys(ctx.repo, cand)
+            if k2 is not None and v['key'] in k2:
+                v['input'] = cand
+                v['what'] += ' [history-dependent: the single connection alone does not show it; replay input = a scenario of several connections]'
+                continue
+        v['input'] = {'kind': 'process-history', 'seed': ctx.seed, 'tier': ctx.tier, 'case': inp}
+        v['what'] += ' [history-dependent: shows only after other cases ran in the same process; replay runs the whole sequence again]'
+
+# --------------------------------------------------------------------------------------------
 def random_lines_case(rng, envs, alphabet, maxlen, env_names):
     n = rng.randrange(1, maxlen + 1)
     # half of the conversations draw 4 of 5 lines from the forms that keep the connection open, so that
@@ -1986,8 +2316,17 @@ def _run(ctx, world, envs, tmp):
                                 deliver=delivery_by_name(inp['delivery']), base=base[0])
         elif inp.get('kind') == 'ownbus':
             own_replay(ctx, world, tmp, inp)
+        elif inp.get('kind') == 'multi':
+            judge_multi(ctx, world, 'handshake-interleaved', [{'sessions': inp['sessions'], 'actions': inp['actions']}], envs)
+        elif inp.get('kind') == 'history':
+            judge_history(ctx, world, envs, inp['cases'])
     if corpus_cases:
         batch(ctx, world, 'lines-exhaustive', corpus_cases, envs)
+
+    # a fixed history of connections, twice (drawn from a generator of its own: the other streams keep their cases)
+    import random as _random
+    judge_history(ctx, world, envs, history_cases(_random.Random('history-%s' % (ctx.seed,)), RICH_ALPHABET))
+    world.first_canon = {}
 
     # 1. bounded-exhaustive line sequences, one read
     depth = ctx.scale(quick=5, thorough=6)
@@ -2095,8 +2434,30 @@ def _run(ctx, world, envs, tmp):
     # with the composed model (Auth/Handshake2.lean)
     run_own_bus(ctx, world, tmp, rng)
 
+    # several connections alive at once, each with its own environment and transport kind; kind flips within one
+    # transport class (state that leaks between connections, instances, classes)
+    run_state_streams(ctx, world, envs, rng, alphabet)
+
+    # repeat oracle: the first cases of this run again, after everything else ran in the same process
+    fc, world.first_canon = world.first_canon, None
+    for key in list(fc):
+        case, first = fc[key]
+        again = run_impl(world, case, envs).canonical()
+        ctx.impl_trace()
+        ctx.case('history-repeat', sample=None)
+        if again != first:
+            ctx.violation('outcome-depends-on-process-history',
+                          'a connection that behaved one way at the start of the run behaves differently at its end (the same '
+                          'process ran %d cases in between); replay runs the whole sequence again' % ctx.cases,
+                          inp={'kind': 'process-history', 'seed': ctx.seed, 'tier': ctx.tier, 'case': case},
+                          observed=again, expected=first)
+            break
+    if getattr(ctx, 'c07_confirm_replays', True):
+        confirm_replays(ctx, world)
+
 
 def replay(ctx, data):
+    ctx.c07_confirm_replays = False
     tmp = tempfile.mkdtemp(prefix='verif-c07-')
     world = None
     try:
@@ -2118,6 +2479,16 @@ def replay(ctx, data):
                                 deliver=delivery_by_name(inp['delivery']), base=base[0])
         elif kind == 'ownbus':
             own_replay(ctx, world, tmp, inp)
+        elif kind == 'multi':
+            judge_multi(ctx, world, 'replay', [{'sessions': inp['sessions'], 'actions': inp['actions']}], envs)
+        elif kind == 'history':
+            judge_history(ctx, world, envs, inp['cases'], stream='replay')
+        elif kind == 'process-history':
+            # the finding depends on everything the process did before: run the whole sequence of that run again
+            import random as _random
+            ctx.seed, ctx.tier = inp['seed'], inp['tier']
+            ctx.rng = _random.Random((inp['seed'], 'C07', 'base').__repr__())
+            _run(ctx, world, envs, tmp)
         else:
             run_real_bus(ctx, world, envs, tmp)
     finally:
